@@ -15,8 +15,12 @@ def run_property(pid, tier, seed, replay=None):
     with core.Lock():
         # 1. regenerate the model parts that come from the source
         tfail = core.regen()
+        uses = core.gen_uses(props_mod, getattr(mod, 'MODULES', []))
         for name, msg in tfail:
-            res.ob_failures.append(('translator:' + name, msg[-1500:]))
+            if core.unit_relevant(name, uses):
+                res.ob_failures.append(('translator:' + name, msg[-1500:]))
+            else:
+                res.notes.append('translation unit %s could not be regenerated (%s); it is not used by this property' % (name, msg[:200]))
         # 2. build the theorems and the oracle against the regenerated Gen modules
         t0 = time.time()
         ok, out = core.lake_build([props_mod])
